@@ -2,6 +2,7 @@ package an
 
 import (
 	"fmt"
+	"go/constant"
 	"go/token"
 	"go/types"
 	"sort"
@@ -163,6 +164,12 @@ func TypePredicateRule(w *World, r *Result, rule string) {
 					if callee := x.Call.StaticCallee(); callee != nil && pkgOf(callee) == pkg && comparesElem(callee, depth+1) {
 						return true
 					}
+					// … or builds the value type to compare with from a constant element type
+					for _, a := range x.Call.Args {
+						if k, ok := a.(*ssa.Const); ok && k.Value != nil && isNamed(k.Type(), "DataType") && depth == 0 {
+							return true
+						}
+					}
 				}
 			}
 		}
@@ -186,6 +193,16 @@ func TypePredicateRule(w *World, r *Result, rule string) {
 		names = append(names, fn.Name())
 	}
 	sort.Strings(names)
+	// the element types: constants of the element type's own type declared in the package
+	var elems []string
+	if st, ok := vt.Underlying().(*types.Struct); ok {
+		et := st.Field(elemField).Type()
+		for _, n := range pkg.Scope().Names() {
+			if c, ok := pkg.Scope().Lookup(n).(*types.Const); ok && types.Identical(c.Type(), et) && c.Val().Kind() == constant.String {
+				elems = append(elems, constant.StringVal(c.Val()))
+			}
+		}
+	}
 	for _, n := range names {
 		fn := preds[n]
 		okAll, rets := true, 0
@@ -198,6 +215,30 @@ func TypePredicateRule(w *World, r *Result, rule string) {
 			}
 		}
 		key := "pred:" + n
+		if !(okAll && rets > 0) && len(elems) > 0 {
+			// the predicate folded over the finite set of value types (every element type, slice flag set):
+			// it is a function of two fields, written without loops
+			folded, trueFor := true, ""
+			for _, e := range elems {
+				recv := make([]any, 2)
+				recv[elemField], recv[flagField] = e, true
+				res, ok := foldPure(fn, []any{recv}, 0)
+				if b, isBool := res.(bool); !ok || !isBool {
+					folded = false
+					break
+				} else if b {
+					trueFor = e
+				}
+			}
+			if folded && trueFor == "" {
+				r.Ok(rule, key, w.Pos(fn.Pos()), fmt.Sprintf("false for the slice of every element type %v (the predicate folded over the finite set of value types)", elems))
+				continue
+			}
+			if folded {
+				r.Bad(rule, key, w.Pos(fn.Pos()), fmt.Sprintf("the scalar predicate %s is true for []%s: a slice passes every check that asks for the scalar — conditions, operands, arguments", n, trueFor))
+				continue
+			}
+		}
 		if okAll && rets > 0 {
 			r.Ok(rule, key, w.Pos(fn.Pos()), "true only where the slice flag was read and found false")
 		} else {
@@ -209,3 +250,215 @@ func TypePredicateRule(w *World, r *Result, rule string) {
 	}
 }
 
+
+// foldPure evaluates a loop-free function of the product over constants: strings, bools and
+// structs of those (as []any). Anything else (memory other than local cells, loops, calls out
+// of the product) makes it give up. It is constant folding of a pure predicate, bounded in depth.
+func foldPure(fn *ssa.Function, args []any, depth int) (any, bool) {
+	if fn == nil || fn.Blocks == nil || depth > 4 || len(args) != len(fn.Params) {
+		return nil, false
+	}
+	type cell struct{ v any }
+	type fieldRef struct {
+		c   *cell
+		idx int
+	}
+	env := map[ssa.Value]any{}
+	for i, p := range fn.Params {
+		env[p] = args[i]
+	}
+	var val func(v ssa.Value) (any, bool)
+	val = func(v ssa.Value) (any, bool) {
+		if k, ok := v.(*ssa.Const); ok {
+			if k.Value == nil {
+				// zero value of a struct of two fields is not needed here
+				return nil, false
+			}
+			switch k.Value.Kind() {
+			case constant.String:
+				return constant.StringVal(k.Value), true
+			case constant.Bool:
+				return constant.BoolVal(k.Value), true
+			}
+			return nil, false
+		}
+		x, ok := env[v]
+		return x, ok
+	}
+	eq := func(a, b any) (bool, bool) {
+		switch x := a.(type) {
+		case string:
+			y, ok := b.(string)
+			return x == y, ok
+		case bool:
+			y, ok := b.(bool)
+			return x == y, ok
+		case []any:
+			y, ok := b.([]any)
+			if !ok || len(x) != len(y) {
+				return false, false
+			}
+			for i := range x {
+				if x[i] != y[i] {
+					return false, true
+				}
+			}
+			return true, true
+		}
+		return false, false
+	}
+	blk, prev := fn.Blocks[0], (*ssa.BasicBlock)(nil)
+	for steps := 0; steps < 200; steps++ {
+		for _, ins := range blk.Instrs {
+			switch x := ins.(type) {
+			case *ssa.DebugRef:
+			case *ssa.Phi:
+				for i, p := range blk.Preds {
+					if p == prev {
+						v, ok := val(x.Edges[i])
+						if !ok {
+							return nil, false
+						}
+						env[x] = v
+					}
+				}
+			case *ssa.Alloc:
+				st, ok := x.Type().Underlying().(*types.Pointer).Elem().Underlying().(*types.Struct)
+				if ok {
+					env[x] = &cell{v: make([]any, st.NumFields())}
+				} else {
+					env[x] = &cell{}
+				}
+			case *ssa.Store:
+				v, ok := val(x.Val)
+				if !ok {
+					return nil, false
+				}
+				switch a := env[x.Addr].(type) {
+				case *cell:
+					a.v = v
+				case fieldRef:
+					fs, ok := a.c.v.([]any)
+					if !ok || a.idx >= len(fs) {
+						return nil, false
+					}
+					fs[a.idx] = v
+				default:
+					return nil, false
+				}
+			case *ssa.FieldAddr:
+				c, ok := env[x.X].(*cell)
+				if !ok {
+					return nil, false
+				}
+				env[x] = fieldRef{c, x.Field}
+			case *ssa.Field:
+				fs, ok := env[x.X].([]any)
+				if !ok || x.Field >= len(fs) {
+					return nil, false
+				}
+				env[x] = fs[x.Field]
+			case *ssa.UnOp:
+				switch x.Op {
+				case token.MUL:
+					switch a := env[x.X].(type) {
+					case *cell:
+						if fs, ok := a.v.([]any); ok {
+							env[x] = append([]any{}, fs...)
+						} else {
+							env[x] = a.v
+						}
+					case fieldRef:
+						fs, ok := a.c.v.([]any)
+						if !ok || a.idx >= len(fs) {
+							return nil, false
+						}
+						env[x] = fs[a.idx]
+					default:
+						return nil, false
+					}
+				case token.NOT:
+					b, ok := env[x.X].(bool)
+					if !ok {
+						if bv, ok2 := val(x.X); ok2 {
+							b, ok = bv.(bool)
+						}
+					}
+					if !ok {
+						return nil, false
+					}
+					env[x] = !b
+				default:
+					return nil, false
+				}
+			case *ssa.BinOp:
+				a, ok1 := val(x.X)
+				b, ok2 := val(x.Y)
+				if !ok1 || !ok2 || (x.Op != token.EQL && x.Op != token.NEQ) {
+					return nil, false
+				}
+				e, ok := eq(a, b)
+				if !ok {
+					return nil, false
+				}
+				env[x] = e == (x.Op == token.EQL)
+			case *ssa.ChangeType:
+				v, ok := val(x.X)
+				if !ok {
+					return nil, false
+				}
+				env[x] = v
+			case *ssa.Convert:
+				v, ok := val(x.X)
+				if _, isStr := v.(string); !ok || !isStr {
+					return nil, false
+				}
+				env[x] = v
+			case *ssa.Call:
+				callee := x.Call.StaticCallee()
+				if callee == nil || x.Call.IsInvoke() || pkgOf(callee) != pkgOf(fn) {
+					return nil, false
+				}
+				var as []any
+				for _, a := range x.Call.Args {
+					v, ok := val(a)
+					if !ok {
+						return nil, false
+					}
+					as = append(as, v)
+				}
+				res, ok := foldPure(callee, as, depth+1)
+				if !ok {
+					return nil, false
+				}
+				env[x] = res
+			case *ssa.If:
+				b, ok := val(x.Cond)
+				bv, isBool := b.(bool)
+				if !ok || !isBool {
+					return nil, false
+				}
+				prev = blk
+				if bv {
+					blk = blk.Succs[0]
+				} else {
+					blk = blk.Succs[1]
+				}
+			case *ssa.Jump:
+				prev, blk = blk, blk.Succs[0]
+			case *ssa.Return:
+				if len(x.Results) != 1 {
+					return nil, false
+				}
+				v, ok := val(x.Results[0])
+				if fs, isStruct := v.([]any); ok && isStruct {
+					v = append([]any{}, fs...)
+				}
+				return v, ok
+			default:
+				return nil, false
+			}
+		}
+	}
+	return nil, false
+}
